@@ -1647,7 +1647,11 @@ impl World for WorldA {
             return Step::Block { dh, dt: dh.saturating_mul(self.cfg.spb), dn: crate::util::subsecond(rng) };
         }
         if r < 17 && self.cfg.migrations {
-            let sc = *rng.pick(&["same", "pre014", "pre014", "v014"]);
+            // the version the token was deployed with: any published release lays balances and allowances out the same way
+            let sc = *rng.pick(&[
+                "same", "pre014", "pre014:0.13.4", "pre014:0.13.0", "pre014:0.10.3", "pre014:0.9.1", "pre014:0.8.0", "pre014:0.6.2", "v014", "v014:0.16.0", "v014:1.0.1",
+                "v014:1.1.2",
+            ]);
             return Step::Migrate {
                 target: "token".into(),
                 msg: json!({}),
@@ -1739,7 +1743,11 @@ impl World for WorldA {
             Step::Migrate { scenario, msg, .. } => {
                 if self.token_ok {
                     let admin = addr_of("wasm-admin");
-                    let sc = scenario.clone().unwrap_or_default();
+                    let full = scenario.clone().unwrap_or_default();
+                    let (sc, ver_from) = match full.split_once(':') {
+                        Some((a, b)) => (a.to_string(), Some(b.to_string())),
+                        None => (full.clone(), None),
+                    };
                     if sc == "pre014" || sc == "v014" {
                         let dump = self.chain.dump("token");
                         let mut ops: Vec<(cosmwasm_std::Binary, Option<cosmwasm_std::Binary>)> = vec![];
@@ -1748,7 +1756,10 @@ impl World for WorldA {
                                 ops.push((rawkeys::map_key("allowance_spender", &k).into(), None));
                             }
                         }
-                        let ver = if sc == "pre014" { "0.13.4" } else { "0.14.0" };
+                        let ver = ver_from.clone().unwrap_or_else(|| if sc == "pre014" { "0.13.4".to_string() } else { "0.14.0".to_string() });
+                        if sc == "pre014" && ver.split('.').nth(1).map(|m| m.len() == 1).unwrap_or(false) {
+                            self.meter.hit("migrate_from_single_digit_minor");
+                        }
                         ops.push((
                             rawkeys::item_key("contract_info").into(),
                             Some(
